@@ -322,6 +322,14 @@ func (ip *interp) exec(op J) {
 		if as, ok := op["as"]; ok && len(out) > 0 {
 			ip.objs[as.(string)] = out[0]
 		}
+	case "obs":
+		// an application sizes / encodes the value while it is still being built (C13: neither may disturb what a later
+		// encoding produces); what the incomplete value answers is not judged, a panic on it is not an error of the scenario
+		guard(func() {
+			m := ip.message(op["obj"].(string))
+			m.Len()
+			m.MarshalBinary()
+		})
 	default:
 		panic("interp: unknown op " + op["op"].(string))
 	}
